@@ -46,7 +46,7 @@ def check (j : Json) : Except String (Option String) := do
         let m := Genesis.Notif.exportGenesis pre
         let imported := Genesis.Notif.initGenesis (Genesis.Notif.blank pre) g
         pure (allSome [cmpField "genesis.notifications" m.notifications g.notifications, cmpField "genesis.blocks" m.blocks g.blocks,
-          cmpField "genesis.validate" (Genesis.Notif.validate g) true,
+          cmpField "genesis.validate" (Genesis.Notif.validate g) ((gj.getObjValAs? Bool "validateOk").toOption.getD true),
           (cmpField "store" (canonStore imported.store) (canonStore post.store)).map (fun d => "genesis.import " ++ d)])
       | .error _ => pure none
     return allSome [cmpField "store" (canonStore pre.store) (canonStore post.store), listing, gd]
